@@ -458,6 +458,23 @@ fn c04_codec<C: Oracle>(rep: &mut Report, rng: &mut Rng) {
                     Some(back) => rep.expect(back == owned, "C04 from_raw(len, into_raw()) gives the sequence back", || format!("{} {} off={}", C::NAME, sl, off)),
                     None => rep.expect(false, "C04 from_raw accepts an image that holds the symbols", || format!("{} {}", C::NAME, sl)),
                 }
+                // every other way to obtain an owned sequence from these bits (public conversions from raw bit containers,
+                // clones, edits of them): the exported image starts at bit 0 of word 0 and rebuilds the sequence
+                let bits_src = bitvec::slice::BitSlice::<usize, bitvec::order::Lsb0>::from_slice(owned.into_raw());
+                let parent_bits = &bits_src[..n * w];
+                let mut shifted = bitvec::vec::BitVec::<usize, bitvec::order::Lsb0>::repeat(false, off * w % 61);
+                shifted.extend_from_bitslice(parent_bits);
+                let un = &shifted[off * w % 61..];
+                let from_bs: Seq<C> = Seq::from(un);
+                let from_bv: Seq<C> = Seq::from(un.to_bitvec());
+                let mut edited: Seq<C> = Seq::from(un);
+                edited.push(C::entry(rows[0]).sym);
+                edited.truncate(n);
+                for (what, x) in [("From<&BitSlice>", &from_bs), ("From<BitVec>", &from_bv), ("From<&BitSlice> then clone", &from_bs.clone()), ("From<&BitSlice>, push, truncate", &edited)] {
+                    let im = x.into_raw().to_vec();
+                    rep.expect(*x == owned && image_rows::<C>(&im, n) == codes && Seq::<C>::from_raw(n, &im).as_ref() == Some(x),
+                        "C04 raw image of an owned sequence built from a raw bit container uses the documented layout from bit 0", || format!("{} {} {} head-offset={} img={:x?}", C::NAME, what, sl, off * w % 61, im));
+                }
             });
         }
     }
